@@ -77,7 +77,7 @@ func c12Forms(sc *c07Schema) []c12Form {
 }
 
 var c12Positions = []string{"select-item", "select-item-unaliased", "function-argument", "array-element", "case-branch", "case-else", "case-condition", "in-list", "where",
-	"subquery-select-list", "grouped-select-list", "having", "joined-select-list", "cte-select-list", "derived-select-list", "order-by-key", "distinct-item", "union-branch", "star-plus-item"}
+	"subquery-select-list", "grouped-select-list", "having", "joined-select-list", "cte-select-list", "derived-select-list", "order-by-key", "distinct-item", "union-branch", "star-plus-item", "nested-from-select-item"}
 
 func c12Col(form string, prefix string) string {
 	out := form
@@ -109,7 +109,7 @@ func genC12(t *rapid.T) any {
 }
 
 var c12AsyncDirect = map[string]bool{"select-item": true, "select-item-unaliased": true, "star-plus-item": true, "joined-select-list": true, "cte-select-list": true,
-	"derived-select-list": true, "subquery-select-list": true, "union-branch": true, "distinct-item": true, "order-by-key": true}
+	"derived-select-list": true, "subquery-select-list": true, "union-branch": true, "distinct-item": true, "order-by-key": true, "nested-from-select-item": true}
 
 func c12Render(doc map[string]any, sc *c07Schema, f c12Form, pos string, where string, join string) *C12Case {
 	if f.name == "async-call" && !c12AsyncDirect[pos] {
@@ -164,6 +164,13 @@ func c12Render(doc map[string]any, sc *c07Schema, f c12Form, pos string, where s
 		c.SQL = fmt.Sprintf("SELECT %s AS e FROM t%s UNION ALL SELECT %s AS e FROM t", k, where, e)
 	case "star-plus-item":
 		c.SQL = fmt.Sprintf("SELECT *, %s AS e FROM t%s", e, where)
+	case "nested-from-select-item":
+		// nn holds the rows of t split into two inner arrays (multi-dimensional FROM)
+		rows, _ := doc["t"].([]any)
+		d2 := val.CopyMap(doc)
+		d2["nn"] = []any{val.Copy(rows[:len(rows)/2]), val.Copy(rows[len(rows)/2:])}
+		c.Doc = d2
+		c.SQL = fmt.Sprintf("SELECT %s, %s AS e FROM nn%s", k, e, where)
 	}
 	return c
 }
@@ -266,9 +273,9 @@ func init() {
 		Title: "Results are plain self-contained data and evaluation is deterministic",
 		Rule: "rapid draws a document and (3/4) one of 41 expression forms (columns, literals of every kind, arithmetic, unary, comparisons, IN, BETWEEN, LIKE, " +
 			"IS, NOT, AND/OR, CASE with and without ELSE, built-in and user function calls, nested calls, subqueries, ASYNC / ONCE / SPIN / SPINASYNC " +
-			"calls, SETVAR/GETVAR, FUSE, CONSTANT) placed in one of 19 positions (select item aliased/unaliased, function argument, array element, " +
+			"calls, SETVAR/GETVAR, FUSE, CONSTANT) placed in one of 20 positions (select item aliased/unaliased, function argument, array element, " +
 			"CASE branch/else/condition, IN list, WHERE, subquery select list, grouped select list, HAVING, joined select list, CTE and derived-table " +
-			"select lists, ORDER BY key, DISTINCT item, UNION branch, star plus item) or (1/4) one of the 33 wide constructs. Oracle on every " +
+			"select lists, ORDER BY key, DISTINCT item, UNION branch, star plus item, select item of a multi-dimensional FROM) or (1/4) one of the 33 wide constructs. Oracle on every " +
 			"successful result: reflective walk (only maps with string keys, slices, strings, Go numeric kinds, bools, nil; no type declared by " +
 			"the library, no pointer/func/struct, no key `<-`, no cycle, finite numbers), json.Marshal succeeds, and two re-executions on fresh equal " +
 			"inputs return the identical sequence (multiset when GROUP BY / joins / UNION leave the order open). Non-trivial: >=1 output row and a " +
